@@ -141,6 +141,11 @@ impl Prop for C01 {
                     return (out, Tape::replay(Default::default()));
                 }
             }
+        } else if idx % 12 == 7 {
+            // one case in twelve: the HTTP game against a scripted HTTP peer (the real HTTP client runs)
+            let scn = crate::scenarios::eco_http_scenario(&mut t, SERVER_IP, 2);
+            let (w, script) = hostile_world(t, &scn, false, true);
+            (scn.call, w, script)
         } else {
             let scn = gen_scenario(&mut t, SERVER_IP, 2);
             let (w, script) = hostile_world(t, &scn, false, true);
@@ -177,7 +182,7 @@ impl Prop for C01 {
     }
 
     fn rule(&self) -> String {
-        "each case draws one public entry point with settings (every protocol query, every hand-written game module, a macro-generated game module, the master-server service, or the definition-driven dispatch over a random GAMES entry; gather toggles, engine variants, retries 0-2, finite timeouts) and a hostile reply script of 0-12 items of up to 64 KiB: a valid reply sequence damaged by truncation / boundary values in length, count, index fields / deleted terminators / bit flips / huge decimal numbers / padding / dropped, duplicated or swapped replies, or a valid header plus random bytes, or random bytes; every third case instead records the replies a reference-model server (random state, random transport: split, compressed, multi-packet) really sent in a valid conversation of the same call and serves them again damaged the same way; followed by silence (UDP) or FIN / stall / RST (TCP). Some runs also inject arbitrary io::Errors, short TCP writes and TCP segmentation. Non-trivial = the client received at least one reply; distinct = distinct event-log hash".to_string()
+        "each case draws one public entry point with settings (every protocol query, every hand-written game module, a macro-generated game module, the master-server service, or the definition-driven dispatch over a random GAMES entry; gather toggles, engine variants, retries 0-2, finite timeouts) and a hostile reply script of 0-12 items of up to 64 KiB: a valid reply sequence damaged by truncation / boundary values in length, count, index fields / deleted terminators / bit flips / huge decimal numbers / padding / dropped, duplicated or swapped replies, or a valid header plus random bytes, or random bytes; every third case instead records the replies a reference-model server (random state, random transport: split, compressed, multi-packet) really sent in a valid conversation of the same call and serves them again damaged the same way; one case in twelve is the HTTP game against a scripted HTTP peer, the real HTTP client running (valid responses under three framings, lying Content-Length, oversized chunks, gzip bombs, redirects, header lines without colon, contradictory or repeated framing headers, folded lines, hundreds of or very long header lines, other line ends, interim responses); followed by silence (UDP) or FIN / stall / RST (TCP). Some runs also inject arbitrary io::Errors, short TCP writes and TCP segmentation. Non-trivial = the client received at least one reply; distinct = distinct event-log hash".to_string()
     }
 
     fn assumptions(&self) -> Vec<String> {
